@@ -67,7 +67,7 @@ def replay(doc):
     if clause is None:
         out["error"] = "clause %s not found" % doc["clause"]
         return out, 3
-    env["old"] = old
+    env["old"] = env["old"] if isinstance(env.get("old"), C.Old) else old     # call() may supply a lifted pre-state
     env["result"] = result
     for r in con.requires:
         try:
@@ -88,7 +88,46 @@ def replay(doc):
     return out, 1 if out["confirmed"] else 0
 
 
+def search(doc, limit_s=60):
+    """The solver's model did not replay (it may rely on an abstraction, e.g. an arbitrary table):
+    look for a real failing input among the contract's own candidate generator."""
+    import time
+    from pyvc import contract as C
+    mod, holder = find_holder(doc["sidecar"], doc["contract"])
+    gen = getattr(holder, "candidates", None)
+    if gen is None:
+        return {"searched": 0}, 0
+    gen = gen.__func__ if isinstance(gen, staticmethod) else gen
+    t0 = time.time()
+    n = 0
+    for cand in gen():
+        n += 1
+        d = dict(doc)
+        d["inputs"] = {k: C.enc(v) for k, v in cand.items()}
+        try:
+            out, code = replay(d)
+        except Exception:
+            continue
+        if code == 1:
+            out["searched"] = n
+            out["found_input"] = d["inputs"]
+            return out, 1
+        if time.time() - t0 > limit_s:
+            break
+    return {"searched": n}, 0
+
+
 def main(argv):
+    if argv[1] == "--search":
+        with open(argv[2]) as fh:
+            doc = json.load(fh)
+        try:
+            out, code = search(doc)
+        except Exception:
+            out, code = {"error": traceback.format_exc()[-3000:]}, 3
+        json.dump(out, sys.stdout)
+        sys.stdout.write("\n")
+        return code
     with open(argv[1]) as fh:
         doc = json.load(fh)
     try:
